@@ -183,47 +183,69 @@ def kv (toks : List String) (k : String) : Option String :=
 
 def kvNat (toks : List String) (k : String) : Option Nat := (kv toks k).bind String.toNat?
 
+/-- protocol traits of the stream layers (regenerated facts): (go-away notification on the wire, new streams refused
+after go-away, the request is decoded — a stream exists — as soon as its head is complete). -/
+def traits (proto : String) : Bool × Bool × Bool :=
+  if proto == "h2" then (Gen.Shutdown.h2GoAwayCarriesLastStream, Gen.Shutdown.h2IgnoresNewStreamsAfterGoAway, true)
+  else if proto == "bolt" then (Gen.Shutdown.xprotocolSendsGoAwayFrame, false, false)
+  else (!Gen.Shutdown.http1GoAwayIsNoop, false, false)
+
 /-- events of one run: connections, the in-flight request advanced to `phase`, the signal, then `hold` ticks with an
-exit attempt before each of them (does the exit label fire before the request may proceed?), the rest of the request,
-a probe connection, and a late request on connection 0. -/
-def gsModel (stage : Int) (phase : String) (nconn drain hold : Nat) : Sys × Bool :=
+exit attempt before each of them (does the exit label fire before the request may proceed?). -/
+def gsModel (proto : String) (stage : Int) (phase : String) (nconn drain hold : Nat) : Sys :=
   let tickMs : Nat := Gen.Shutdown.drainSleepMs.toNat
   let main := nconn - 1
-  let s0 := sysInit ((drain * tickMs : Nat) : Int)
+  let (notifies, refuseNew, headDecodes) := traits proto
+  let s0 := sysInit ((drain * tickMs : Nat) : Int) notifies refuseNew
   let pre := (List.replicate nconn Ev.connect) ++
-    (if phase == "hdr" || phase == "body" then [Ev.bytes main]
+    (if phase == "hdr" then [Ev.bytes main]
+     else if phase == "body" then (if headDecodes then [Ev.bytes main, Ev.decoded main] else [Ev.bytes main])
      else if phase == "wait" || phase == "resp" then [Ev.bytes main, Ev.decoded main] else [])
   let s1 := Model.Shutdown.run s0 (pre ++ [Ev.signal stage])
-  let s2 := Model.Shutdown.run s1 ((List.replicate hold [Ev.exit, Ev.tick tickMs]).flatten ++ [Ev.exit])
-  (s2, s2.exited)
+  Model.Shutdown.run s1 ((List.replicate hold [Ev.exit, Ev.tick tickMs]).flatten ++ [Ev.exit])
+
+/-- outcome of the request on connection `i` after the remaining events were played: ok / retry (refused on a
+gone-away connection, retryable) / fail -/
+def outcome (before after : Sys) (i : Nat) : String :=
+  match before.conns[i]?, after.conns[i]? with
+  | some b, some a => if a.served == b.served + 1 then "ok" else if a.refusedReq == b.refusedReq + 1 then "retry" else "fail"
+  | _, _ => "fail"
 
 def gs (c : List String) (impl : List String) : String :=
-  match kv c "stage" >>= String.toInt?, kv c "phase", kvNat c "idle", kvNat c "bg", kvNat c "drain", kvNat c "hold", kv c "succ" with
-  | some stage, some phase, some idle, some bg, some drain, some hold, some succ =>
+  match kv c "proto", kv c "stage" >>= String.toInt?, kv c "phase", kvNat c "idle", kvNat c "bg", kvNat c "drain", kvNat c "hold", kv c "succ" with
+  | some proto, some stage, some phase, some idle, some bg, some drain, some hold, some succ =>
     let n := idle + bg + 1
-    let (s, exitFirst) := gsModel stage phase n drain hold
+    let s := gsModel proto stage phase n drain hold
+    let exitFirst := s.exited
     -- in one process nothing exits: the rest of the request, a late request and a new connection are then played
-    let s' := { s with exited := false }
+    let s1 := { s with exited := false }
     let main := n - 1
-    let s' := Model.Shutdown.run s' [Ev.bytes main, Ev.decoded main, Ev.respDone main]
-    let reqOk := (s'.conns[main]?).map (·.served) == some 1
-    let s'' := Model.Shutdown.run s' [Ev.decoded 0, Ev.respDone 0]
-    let late := if idle == 0 then "na" else if (s''.conns[0]?).map (·.served) == some 1 then "ok" else "fail"
+    let s2 := Model.Shutdown.run s1 [Ev.bytes main, Ev.decoded main, Ev.respDone main]
+    let req := outcome s1 s2 main
+    let s3 := Model.Shutdown.run s2 [Ev.decoded 0, Ev.respDone 0]
+    let late := if idle == 0 then "na" else outcome s2 s3 0
+    -- background clients: each issues a further request after the signal
+    let bgOut := (List.range bg).map (fun k => outcome s1 (Model.Shutdown.run s1 [Ev.decoded (idle + k), Ev.respDone (idle + k)]) (idle + k))
     let newc := if succ == "1" then "srv" else
       (match probeResult s.lis with | "acc" => "srv" | x => x)
     let ga := joinWith "," (s.conns.map (fun k => toString k.goAway))
-    let out := s!"req={if reqOk then "ok" else "fail"} new={newc} exitfirst={if exitFirst then 1 else 0} goaway={ga} late={late} bgfail=0 lstate={s.lis.state} shut=ok"
-    -- reference property, literal values: 13 = Upgrading
+    let cga := (s.conns.map (·.notified)).foldl (· + ·) 0
+    let out := s!"req={req} new={newc} exitfirst={if exitFirst then 1 else 0} goaway={ga} cga={cga} late={late} bgfail={(bgOut.filter (· == "fail")).length} bgretry={(bgOut.filter (· == "retry")).length} lstate={s.lis.state} shut=ok"
+    -- reference property, literal values: 13 = Upgrading; h2 = the protocol whose go-away lets the client retry
     let g (k : String) := (kv impl k).getD "?"
     let upgrade := stage == 13
     let gas := (g "goaway").splitOn ","
-    let spec := g "req" == "ok" && g "bgfail" == "0" && g "shut" == "ok"
+    let started := phase != "pre" && !(proto == "h2" && phase == "hdr")   -- MOSN had (part of) the request before the signal ...
+    let retryOk := proto == "h2" && (phase == "pre" || phase == "hdr")     -- ... except an HTTP/2 stream not yet opened: refused, retryable
+    let spec := (g "req" == "ok" || (retryOk && g "req" == "retry")) && g "bgfail" == "0" && g "shut" == "ok"
+      && (proto == "h2" || g "bgretry" == "0")
       && (if succ == "1" then g "new" == "srv" else if upgrade then g "new" == "pend" else g "new" == "ref")
-      && (upgrade || phase == "pre" || g "exitfirst" == "0" || hold > drain)
+      && (upgrade || !started || g "exitfirst" == "0" || hold > drain)
       && gas.length == n && gas.all (· == "1")
-      && (!upgrade || idle == 0 || g "late" == "ok")
+      && (proto == "h1" || g "cga" == toString n)
+      && (!upgrade || idle == 0 || g "late" == "ok" || (proto == "h2" && g "late" == "retry"))
     verdict (joinWith " " impl == out) spec out
-  | _, _, _, _, _, _, _ => "E E bad-case"
+  | _, _, _, _, _, _, _, _ => "E E bad-case"
 
 def run (caseToks impl : List String) : String :=
   match caseToks with
